@@ -30,6 +30,12 @@ def flatten(levels, i, reading='late'):
     pats = [_declares_ignore(lv) for lv in levels]
     ig_levels = [j for j, p in enumerate(pats) if p]
 
+    # When the root itself declares ignore patterns, every literal of the chain is in force and (late
+    # reading) skips the patterns of all levels: the flat grammar then simply declares those patterns
+    # itself, so that its literals are compiled exactly like the implementation's (plain literals
+    # with the skip flag) instead of `lit << Ig` wrappers, whose partial-success flags differ.
+    native = bool(ig_levels) and ig_levels[0] == 0 and reading == 'late'
+
     def in_force(j):
         return any(l <= j for l in ig_levels)
 
@@ -45,7 +51,7 @@ def flatten(levels, i, reading='late'):
     def ren(e, j, bound):
         k = e[0]
         if k in ('lit', 're'):
-            if in_force(j) and not (k == 'lit' and e[1] == ''):
+            if in_force(j) and not native and not (k == 'lit' and e[1] == ''):
                 return ['left', e, ['ref', ig_name(j)]]
             return e
         if k == 'ref':
@@ -105,6 +111,9 @@ def flatten(levels, i, reading='late'):
         if reading == 'late':
             allp = [p for j in ig_levels for p in pats[j]]
             items.append({'k': 'rule', 'name': 'Ig', 'expr': ['skip'] + allp})
+            if native:
+                for p in allp:
+                    items.append({'k': 'ignore', 'expr': p})
         else:
             for j in ig_levels:
                 allp = [p for l in ig_levels if l <= j for p in pats[l]]
